@@ -440,7 +440,10 @@ Fixpoint c_write (c : codec) (v : gval) {struct c} : option bytes :=
                                | (k, x) :: l' => option_map (app (string_write k)) (c_write vc x) :: go l'
                                end) kvs))
       end
-  | CPtr c' _, VPtr None => Some []
+  | CPtr c' _, VPtr None =>
+      (* nil: nothing is written, except that a pointer to a slice or map codec
+         writes the empty collection *)
+      Some (match c' with CArray _ _ _ | CMap _ _ _ => [0] | _ => [] end)
   | CPtr c' _, VPtr (Some x) => c_write c' x
   | CUnion _, _ => None
   | CUnionOne c' nn, _ =>
